@@ -45,14 +45,6 @@ def handle (cmd : String) (args : List Sx) : String :=
     match parseDet d, path.bytes?, evs.mapM parseEv with
     | some d, some path, some evs => toHex (render path (stdRun d evs))
     | _, _, _ => "bad-op"
-  -- `c14.guard <convert|quit> (events …)`: guard of C14_partial_convert (whole stream) resp.
-  -- C14_partial_quit (the events before the first `bin`)
-  | "c14.guard", [d, .list (.atom "events" :: evs)] =>
-    match parseDet d, evs.mapM parseEv with
-    | some .quit, some evs =>
-      let pre := evs.takeWhile (fun e => !e.isBinaryData)
-      if MatchIfLine pre then "1" else "0"
-    | _, _ => "bad-op"
   -- `c14.count <det> <binOff|-> <n>`: official match count of the summary printer
   | "c14.count", [d, bo, n] =>
     match parseDet d, n.nat? with
